@@ -534,7 +534,8 @@ def _block(iterator: Iterable[str], indent: str) -> str:
 def _block_string(value: str, indent: str, is_description: bool = False) -> str:
     escaped = value.replace('"""', '\\"""')
     if value[:1] in (" ", "\t") and "\n" not in value:
-        if escaped.endswith('"'):
+        # A trailing quote or backslash would run into the closing quotes.
+        if escaped.endswith('"') or escaped.endswith("\\"):
             escaped = escaped + "\n"
         return '"""%s"""' % escaped
     return '"""\n%s\n"""' % (
